@@ -711,7 +711,7 @@ func (c *Ctx) NoBlockingWhileHolding(rule, rel string, all map[string][]*LockAna
 					// package for as long as it likes
 					if sel, ok := n.Fun.(*ast.SelectorExpr); ok {
 						if s := p.TypesInfo.Selections[sel]; s != nil && s.Kind() == types.FieldVal {
-							if _, isFn := s.Type().Underlying().(*types.Signature); isFn {
+							if _, isFn := s.Type().Underlying().(*types.Signature); isFn && s.Type().String() != "context.CancelFunc" && s.Type().String() != "context.CancelCauseFunc" {
 								if v, ok := s.Obj().(*types.Var); ok {
 									check(n, "call of the user callback "+canonField(v), n)
 								}
